@@ -27,7 +27,8 @@ THEOREMS = ["C04_borrow_sound", "C04_withdraw_sound", "C04_isolated_debt_is_only
             "C04_asset_value_initial", "C04_init_limit_discount", "C04_emode_is_reconciled_over_borrowing_banks",
             "C04_reconcile_present_iff_in_all_and_minimum", "C04_reconcile_absent_iff_missing_somewhere",
             "C04_value_monotone", "C04_value_rounding_bound",
-            "C04_borrow_without_risk_accounts", "C04_withdraw_without_risk_accounts"]
+            "C04_borrow_without_risk_accounts", "C04_withdraw_without_risk_accounts",
+            "C04_borrow_without_risk_accounts_only_in_flashloan"]
 RULE = ("suite risk (structured): worlds of 2-6 banks (every 10th: 17 banks, 16 positions) with Fixed or Pyth push oracles "
         "(confidence 0-4%, EMA within 10% of spot, exponents -8..0), decimals 0-9, weights 0.3-1 / 1-1.5, share values 1-1.75; "
         "features e-mode pairs, isolated tier (as debt and as collateral), reduce-only collateral, stale collateral oracle, "
